@@ -310,6 +310,93 @@ class C09(SessimProp):
                     detail + " [attributed: the same panic happens as a plain program without any command or interrupt - C02 territory]")
         return (cls, key, detail)
 
+
+    # ---- confirmation against the real process ------------------------------
+    def confirm_real(self, ctx, steps, sim_res):
+        """Replays the history against the real `garden-verif json` process in
+        lockstep (one request, wait for its response) and reports whether the
+        process really stops answering.  Mid-evaluation interrupts are delivered
+        through VERIF_FAULTS=interrupt@K with K the global step index taken from
+        the simulated run.  Returns (confirmed: bool|None, note)."""
+        import select
+        import subprocess
+        import time
+        full = list(steps) + [{"op": "send", "raw": run_req(e, 900001 + i)} for i, e in enumerate(EPILOGUE)]
+        ks = []
+        seen = 0
+        for st, rs in zip(full, sim_res.get("steps", [])):
+            for rd in rs["rounds"]:
+                for f in rd["fired"]:
+                    ks.append(seen + f["at"])
+                seen += rd["steps"]
+        if any(st["op"] == "burst" and any(is_interrupt_request(r) for r in st["raws"]) for st in full):
+            return None, "history has an interrupt inside a burst: not replayable in lockstep"
+        env = dict(os.environ)
+        env["NO_COLOR"] = "1"
+        if ks:
+            env["VERIF_FAULTS"] = ",".join(f"interrupt@{k}" for k in ks)
+        p = subprocess.Popen([common.BIN, "json"], cwd=ctx["dir"], env=env, stdin=subprocess.PIPE,
+                             stdout=subprocess.PIPE, stderr=subprocess.PIPE)
+        buf = b""
+
+        def read_responses(n, timeout):
+            nonlocal buf
+            got = []
+            deadline = time.time() + timeout
+            while len(got) < n:
+                while b"\n" in buf and len(got) < n:
+                    line, buf = buf.split(b"\n", 1)
+                    try:
+                        d = json.loads(line)
+                    except Exception:
+                        continue
+                    k = d.get("kind", {})
+                    if "printed" in k or "printed_stderr" in k or "ready" in k:
+                        continue
+                    got.append(d)
+                if len(got) >= n:
+                    break
+                rem = deadline - time.time()
+                if rem <= 0 or p.poll() is not None and not select.select([p.stdout], [], [], 0)[0]:
+                    break
+                r, _, _ = select.select([p.stdout], [], [], min(rem, 0.5))
+                if r:
+                    chunk = os.read(p.stdout.fileno(), 65536)
+                    if not chunk:
+                        break
+                    buf += chunk
+            return got
+
+        def send(raw):
+            b = raw.encode()
+            p.stdin.write(b"Content-Length: " + str(len(b)).encode() + b"\n" + b)
+            p.stdin.flush()
+        note = "the real process answered every request"
+        confirmed = False
+        try:
+            for si, st in enumerate(full):
+                raws = [st["raw"]] if st["op"] == "send" else (st.get("raws") or ["{\"method\":\"interrupt\"}"])
+                try:
+                    for r in raws:
+                        send(r)
+                except (BrokenPipeError, OSError):
+                    confirmed = True
+                    note = f"the real process was gone when request #{si} was sent (exit status {p.poll()})"
+                    break
+                got = read_responses(len(raws), 20.0)
+                if len(got) < len(raws):
+                    confirmed = True
+                    note = (f"the real process answered {len(got)} of {len(raws)} for request #{si} "
+                            f"({self.describe(st)}) within 20 s; exit status {p.poll()}; stderr {p.stderr.read(400) if p.poll() is not None else b''!r}")
+                    break
+        finally:
+            try:
+                p.kill()
+            except Exception:
+                pass
+            p.wait()
+        return confirmed, note
+
     def replay(self, ctx, rp):
         res = ctx["ex"].run(self.scenario(rp["steps"]))
         out = []
@@ -354,7 +441,13 @@ class C09(SessimProp):
             nv["replay"] = {"steps": steps}
             nv["detail"] = got[0]["detail"] + " | minimised history: " + json.dumps(
                 [s.get("raw", s.get("raws", s["op"])) for s in steps])[:1200]
-            return nv
+            v = nv
+        if v["class"] in ("panic", "plain-evaluation-panic") or v["class"].startswith("panic"):
+            sim = ctx["ex"].run(self.scenario(v["replay"]["steps"]))
+            ok, note = self.confirm_real(ctx, v["replay"]["steps"], sim)
+            v = dict(v)
+            v["detail"] += f" | real `garden-verif json` process: {'CONFIRMED - ' if ok else ('not replayable - ' if ok is None else 'NOT confirmed - ')}{note}"
+            v["confirmed_on_real_process"] = ok
         return v
 
 
